@@ -340,7 +340,7 @@ func init() {
 		db := nitro.New()
 		sl := skiplist.New()
 		sink := NewSink(a.out, "C20", "Tie.C20Tie", a.seed)
-		sink.meta.Rule = "op sequences (5..125 ops over 2..10 keys) with hash in {constant, mod 2, mod 3, crc32, identity}, biased to removing the oldest present key (the fast entry of a bucket with overflow) and re-adding; node-list scripts of Add/Remove/Keys; non-trivial = at least one successful Remove and >=4 ops; distinct by Coq term"
+		sink.meta.Rule = "op sequences (5..125 ops over 2..10 keys) with hash in {constant, mod 2, mod 3, crc32, identity}, biased to removing the oldest present key (the fast entry of a bucket with overflow) and re-adding; node-list scripts of Add/Remove/Keys; non-trivial = at least one successful Remove and >=4 ops; distinct by Coq term; node lists: removed nodes are re-added later (their Link still set), also after the list was drained"
 		run := func(in *c20Input) {
 			if in.Kind == "list" {
 				c20RunList(db, sl, in, sink)
